@@ -569,11 +569,55 @@ def run(ctx):
     ctx.finish_rule()
 
 
+def _clamps_by_evaluation(ctx, f):
+    """the same question for a reader written out (`let v = reader(.., Ok(d))?; Ok(if v == 0 { 1 } else { v })`): its decision
+    structure is evaluated with the inner reader's value bound to 0, 1, 2, 7 and 65535; the answer must be Ok(max(value, 1)), and the
+    default handed to the inner reader must be >= 1. None when the function has no such shape (the caller reports)."""
+    from .. import formula
+    prog = ctx.prog
+    readers = []
+    for b, t, c in f.calls():
+        if c and c.startswith("lace::debugger::command::parse::") and c in prog.fns and "Result<u16" in str(prog.fns[c].d.get("output", "")):
+            readers.append((b, t, c))
+    if len(readers) != 1:
+        return None
+    b0, t0, rname = readers[0]
+    d_ok = False
+    for a in t0["args"]:
+        for x in expr_walk(f.expr(a, 8)):
+            if x[0] == "agg" and x[1][0] == "adt" and x[1][2] == "Ok" and x[2] and x[2][0][0] == "const":
+                d_ok = x[2][0][1] >= 1
+    try:
+        tree = formula.decision(f)
+    except formula.NotATree:
+        return None
+    for v in (0, 1, 2, 7, 65535):
+        def sub(e, _v=v):
+            if e[0] == "call" and str(e[1]).endswith("Try>::branch") and len(e[2]) == 1 and e[2][0][0] == "call" and e[2][0][1] == rname:
+                return ("variant", "Continue", "core::ops::control_flow::ControlFlow", (_v,))
+            if e[0] == "call" and e[1] == rname:
+                return ("variant", "Ok", "core::result::Result", (_v,))
+            return None
+        env = {"subst": sub, "prog": prog}
+        try:
+            lab = formula.eval_decision(tree, env)
+            got = formula.evaluate(lab, env) if lab is not None else None
+        except (formula.Unknown, formula.Overflow) as ex:
+            return False, "the value returned for an inner result of %d cannot be decided (%s)" % (v, ex)
+        want = max(v, 1)
+        if not (isinstance(got, tuple) and got[:2] == ("variant", "Ok") and got[3] == (want,)):
+            return False, "an inner result of %d comes out as %s, not Ok(%d)" % (v, got, want)
+    return d_ok, "default>=1: %s, evaluated: Ok(max(value, 1)) for 0, 1, 2, 7, 65535" % d_ok
+
+
 def clamps_to_one(ctx, f):
     """does reader function f return Result::map(reader(.., Ok(d)), |v| max(v, m)) with d >= 1 and m >= 1 ?"""
     ctx.analysed_fns.add(f.name)
     e = f.local_expr(0, 12)
     if not (e[0] == "call" and e[1] and e[1].endswith("Result::<T, E>::map")):
+        alt = _clamps_by_evaluation(ctx, f)
+        if alt is not None:
+            return alt
         return False, "result is `%s`, not a mapped reader result" % expr_str(e, 80)
     inner, clo = e[2][0], e[2][1]
     # default value
